@@ -31,6 +31,16 @@ CLAIMED = {
   "Trusted: Lean kernel; Go->Lean translator (string parameter represented by its length); harness/oracle parsers; Go's sort.Sort calling only Less/Swap; strings.Index/Repeat "
   "(correspondence only). rep's overflow tests are not proved (boundary cases by correspondence). Open by the manual and not compared: explicit nil optionals, number->string coercion of "
   "arguments, unpack result counts between 256 and 2^31, ranges of more than 4096 elements. One recorded defect (C19-rep-negative), five repaired (known_findings.json).", "6/C19, 14/C19"),
+ "C12": ("proof",
+  "Lean 4: parse∘print = id for the mirrored precedence-climbing parser over all operators and all redundant parenthesisations; escape/long-bracket decode∘spell = id; operator tables regenerated from ops.go/parser.go/token.go and proved equal to the model's; correspondence of golua's AST, decoded literals and error lines with those definitions",
+  "Props/C12.lean proves, with propext/Classical.choice/Quot.sound only, parse_render (every tree over 21 binary + 4 unary operators, every choice of redundant parentheses), "
+  "decode_escape (every byte string, every escape form incl. \\z, \\u{..}, backslash-newline), long_bracket (every level, incl. the empty string) and, re-checked per run, that the model's "
+  "precedence/token tables are the ones extracted from /repo. The real scanner/parser/ast are run in-process on exhaustive depth-2 trees x spellings, random deeper trees, exhaustive short "
+  "literal spellings, Spec.Literal.escape outputs and single-token corruptions, and compared with the same Lean definitions (AST vs intended tree and vs Model.ParseExp; decoded value vs "
+  "Model.Literal; error line vs the corrupted token's line).",
+  "Model.Literal / Spec.Numeral are the Lua semantics, not mirrors of golua's regexp/strconv code: that part is tied by correspondence only (level A). Statement forms are checked for "
+  "acceptance and error position only; the expected error token of a corruption is known by construction, not from a Lean statement grammar. Comments/whitespace are exercised through "
+  "spellings, not modelled. Trusted: Lean kernel, harness AST dumper (BinOp lists read as left folds, as astcomp compiles them), extract/fronttab.", "6/C12, 14/C12"),
 }
 
 NOT_YET = "machinery for this property is not built yet in this revision (see DESIGN.md section 9 build order); not claimed"
